@@ -111,6 +111,13 @@ fn positions() -> Vec<Pos> {
     for l in [0i64, 6, 7, -1, -2, -3, -4, -5, -12, -70000] {
         out.push(Pos { name: "key extra under a key-type-specific / unknown label", ty: Ty::Key, template: m(vec![(Item::int(1), Item::int(2)), (Item::int(l), ph())]), interpreting: false });
     }
+    // the key data length beside a protected header naming each registered algorithm (the integer must
+    // not depend on its neighbour); run for small n and the extremes only
+    for a in crate::registry::values(Reg::Algorithm) {
+        let prot = Item::Bytes(rcbor::det(&m(vec![(Item::int(1), Item::int(a))])));
+        out.push(Pos { name: "key data length beside a protected algorithm", ty: Ty::SuppPub, template: Item::Array(vec![ph(), prot.clone()]), interpreting: true });
+        out.push(Pos { name: "key data length beside a protected algorithm (KDF context)", ty: Ty::Kdf, template: kdf(Item::int(a), pn.clone(), pn.clone(), Item::Array(vec![ph(), prot, Item::Bytes(vec![1])])), interpreting: true });
+    }
     // two different integers as keys of one map (n and n + 1): neither may shadow the other
     out.push(Pos { name: "header labels n and n+1", ty: Ty::Header, template: m(vec![(ph(), Item::Null), (ph_next(), Item::Null)]), interpreting: true });
     out.push(Pos { name: "key labels n and n+1", ty: Ty::Key, template: m(vec![(ph(), Item::Null), (Item::int(1), Item::int(2)), (ph_next(), Item::Null)]), interpreting: true });
@@ -148,6 +155,9 @@ fn check_n(ctx: &mut Ctx, n: i128, positions: &[Pos], all_carriers: bool) {
     let pat3 = rcbor::det(&ph_next());
     let encs = int_encodings(n);
     for p in positions {
+        if p.name.starts_with("key data length beside") && !(0..=256).contains(&n) && n != 65535 && n != 65536 && n != u64::MAX as i128 && n != -1 {
+            continue;
+        }
         let mut tb = rcbor::det(&p.template);
         if tb.windows(pat3.len()).any(|w| w == &pat3[..]) {
             if n + 1 > gen::CBOR_MAX || (1..=7).contains(&n) || (0..=6).contains(&n) {
@@ -275,7 +285,7 @@ impl Check for C15 {
         }
     }
     fn rule(&self) -> String {
-        "integers n from a boundary lattice (0, +-1, 23/24, 2^8, 2^16, 2^32, 2^63, 2^64 boundaries +-2; every power of two +-1 of both signs; registered identifiers shifted by 2^8, 2^16, 2^32, 2^63, 2^64 and sign-flipped: the aliases a truncating or wrapping conversion would create) plus log-uniform samples over [-2^64, 2^64-1], each planted at 70 positions (bare and registry label types, header/key/claims labels, alg in header (also inside a protected bstr), key and KDF context, kty, content type, crit and key_ops elements, party nonces, exp/nbf/iat, key data length, and uninterpreted extra values incl. nested) in every encoding (all head widths >= minimal, bignum with 0-3 leading zeros); every header-map and key-map case is repeated inside 28 header carriers (the protected / unprotected buckets of every structure, counter signatures in bare and array form at first and later positions and two levels deep, later signers and recipients) and 4 key-set positions. Oracle: the reference model's verdict for that position (exact value, or out-of-range error when n is the only fault, or another stated reason such as unregistered), extras preserved exactly, accepted values re-encode to an integer that reads back as n. Non-trivial = distinct (position, n).".into()
+        "integers n from a boundary lattice (0, +-1, 23/24, 2^8, 2^16, 2^32, 2^63, 2^64 boundaries +-2; every power of two +-1 of both signs; registered identifiers shifted by 2^8, 2^16, 2^32, 2^63, 2^64 and sign-flipped: the aliases a truncating or wrapping conversion would create) plus log-uniform samples over [-2^64, 2^64-1], each planted at 70 positions (bare and registry label types, header/key/claims labels, alg in header (also inside a protected bstr), key and KDF context, kty, content type, crit and key_ops elements, party nonces, exp/nbf/iat, key data length (also beside a protected header naming each registered algorithm, for small n and the extremes), and uninterpreted extra values incl. nested) in every encoding (all head widths >= minimal, bignum with 0-3 leading zeros); every header-map and key-map case is repeated inside 28 header carriers (the protected / unprotected buckets of every structure, counter signatures in bare and array form at first and later positions and two levels deep, later signers and recipients) and 4 key-set positions. Oracle: the reference model's verdict for that position (exact value, or out-of-range error when n is the only fault, or another stated reason such as unregistered), extras preserved exactly, accepted values re-encode to an integer that reads back as n. Non-trivial = distinct (position, n).".into()
     }
     fn assumptions(&self) -> Vec<String> {
         super::std_assumptions()
